@@ -328,7 +328,7 @@ class StreamResult:
 
 
 def run_stream(name, mode, cases, nontrivial, hook=False, exhaustive=False, bounds="", hist_key=None,
-               oracles=None, feed_impl=False):
+               oracles=None, feed_impl=False, project=None):
     """cases: list of case lines.  nontrivial(case, obs)->bool."""
     sr = StreamResult(name, mode)
     sr.exhaustive = exhaustive
@@ -363,7 +363,7 @@ def run_stream(name, mode, cases, nontrivial, hook=False, exhaustive=False, boun
         if hist_key:
             k = hist_key(c, a)
             sr.hist[k] = sr.hist.get(k, 0) + 1
-        if a != bs:
+        if (project(a) != project(bs)) if project else (a != bs):
             sr.disagree.append((c, a, b))
         fails = OK_FAIL.findall(a)
         if oracles is not None:
